@@ -80,6 +80,20 @@ def rlSerialize (ps : List Packet) : List Nat := ps.flatMap Packet.bytes ++ [128
 
 def rlExpand (ps : List Packet) : List Nat := ps.flatMap Packet.expand
 
+/-- a reference RunLength packetiser: the longest run (at most 128) of the next byte becomes a run
+packet when it has at least two bytes, a one-byte literal packet otherwise.  (`fuel` > length.) -/
+def rlPacketsGo : Nat → List Nat → List Packet
+  | 0, _ => []
+  | _ + 1, [] => []
+  | fuel + 1, x :: xs =>
+    let k := min 127 (xs.takeWhile (· == x)).length
+    (if k = 0 then Packet.lit [x] else Packet.run (k + 1) x) :: rlPacketsGo fuel (xs.drop k)
+
+def rlPackets (data : List Nat) : List Packet := rlPacketsGo (data.length + 1) data
+
+/-- the reference RunLength encoder -/
+def rlEnc (data : List Nat) : List Nat := rlSerialize (rlPackets data)
+
 /-! ## LZW -/
 
 /-- encoder table: for every code the list of (next byte, code of the extended string) -/
